@@ -2,7 +2,7 @@
 Correspondence with coq/Model/Formatter.v + Model/EntityAlt.v; direct oracle: an independent reference
 renderer driven by the *documented* meaning of every option, call-site accounting for custom substitution
 functions, attribute-insertion-order twins and subprocess runs under several PYTHONHASHSEED values."""
-import copy, itertools, json, os, subprocess, sys, warnings
+import copy, itertools, json, os, re, subprocess, sys, warnings
 
 import c15lib as L
 from common import PY, REPO, VERIF
@@ -16,7 +16,9 @@ RULE = ("constructors: the full product class x language x entity_substitution x
         "4 (thorough) nodes over {text, comment, p, pre, script, void br, hidden div} x six formatter specifications x "
         "{decode, prettify, decode_contents}; (b') name case: sibling tags whose names differ only by case (Code/code/CODE, "
         "script/SCRIPT, Style, pre/Pre) x cdata_containing_tags naming one spelling x flavour x class x way of passing x "
-        "{decode, prettify, each string's output_ready}; (c) seeded random trees (every string class, prefixed / void / hidden / "
+        "{decode, prettify, each string's output_ready}; (b'') parsed documents with <meta charset> / http-equiv content-type "
+        "declarations (values of the charset-placeholder classes) x names / functions / objects of the three classes x "
+        "{decode with default / no / another eventual encoding, encode(utf-8 / utf-16), prettify, *_contents}; (c) seeded random trees (every string class, prefixed / void / hidden / "
         "whitespace-preserving elements, attribute values None / '' / str with quotes / list / tuple / number, XML and HTML "
         "flavours, parsed documents) x random formatter specification (object / name / function) x entry point (decode, "
         "prettify, decode_contents, encode, encode_contents, string output_ready) x indent level; attribute order: every "
@@ -34,7 +36,11 @@ ASSUMPTIONS = [
     "str(value) of non-string attribute values is supplied by the harness (interpreter's formatting)",
     "independence from hash randomisation is measured (subprocess runs under several PYTHONHASHSEED values), not proved: "
     "the theorems remove its two sources in the code (attribute order, alternation order)",
-    "attribute values that are NavigableString objects or charset-substituting meta values are not generated",
+    "attribute values that are NavigableString objects are not generated",
+    "<meta> charset placeholders (CharsetMetaAttributeValue / ContentMetaAttributeValue): the encoding step that precedes the "
+    "formatter in _format_tag belongs to C08; the harness restates it independently (charset -> the eventual encoding, "
+    "content -> its charset= part rewritten; Python-specific encodings not generated) and the model receives the resulting "
+    "text as an ordinary str value — what is compared is that the formatter is then applied to it",
 ]
 
 CLS_ID = {"Formatter": 0, "HTMLFormatter": 1, "XMLFormatter": 2}
@@ -102,10 +108,31 @@ def doc_resolve(spec, is_xml):
             "cdata": set() if is_xml else set(DOC_HTML_CDATA), "eab": eab, "unit": " "}
 
 
-def value_text(v):
+CHARSET_IN_CONTENT = re.compile(r"((^|;)\s*charset\s*=\s*)([^;]*)", re.M | re.I)
+
+
+def case_ev(case):
+    """the eventual encoding the call is made with: decode()/decode_contents() default to utf-8 (None = no output
+    encoding in mind), prettify() uses the default, encode(enc) passes enc on"""
+    e = case["entry"]
+    if e in ("encode", "encode_contents"):
+        return case.get("encoding", "utf-8")
+    if e in ("decode", "decode_contents"):
+        return case["eventual"] if "eventual" in case else "utf-8"
+    return "utf-8"
+
+
+def value_text(v, ev="utf-8"):
+    """the text of an attribute value as it is handed to the formatter. A <meta> charset placeholder first becomes
+    the declaration for the eventual encoding (documented: "its <meta> tag will mention the new encoding"); with no
+    eventual encoding it is its original text. Either way it then goes through the formatter like any other value."""
     t = v[0]
     if t == "none":
         return None
+    if t == "charset":
+        return v[1] if ev is None else ev
+    if t == "content":
+        return v[1] if ev is None else CHARSET_IN_CONTENT.sub(lambda m: m.group(1) + ev, v[1])
     if t in ("list", "tuple"):
         return " ".join(v[1])
     if t == "str":
@@ -160,7 +187,7 @@ def ref_render(node, o, level, incl_self, xml_decl=False):
         for k, v in sorted(n["attrs"], key=lambda kv: kv[0]):
             if o["eab"] and v == ["str", ""]:
                 v = ["none"]
-            t = value_text(v)
+            t = value_text(v, o.get("ev", "utf-8"))
             if t is None:
                 parts.append(k)
             else:
@@ -241,10 +268,12 @@ def enc_spec(spec):
     return [2, enc_fn(spec["f"])]
 
 
-def enc_value(v):
+def enc_value(v, ev="utf-8"):
     t = v[0]
     if t == "none":
         return [0]
+    if t in ("charset", "content"):
+        return [1, value_text(v, ev)]        # the model sees the value after the encoding step (a str)
     if t == "str":
         return [1, v[1]]
     if t in ("list", "tuple"):
@@ -252,26 +281,26 @@ def enc_value(v):
     return [3, str(v[1])]
 
 
-def enc_node(n, counter):
+def enc_node(n, counter, ev="utf-8"):
     if n["k"] == "s":
         return [0, n["cls"], n["text"]]
     i = counter[0]
     counter[0] += 1
     return [1, i, n["name"], [] if not n["prefix"] and n["prefix"] is None else [n["prefix"]],
-            [[k, enc_value(v)] for k, v in n["attrs"]], bool(n["cbe"]), bool(n["hidden"]),
-            list(n["pw"] or []), [enc_node(c, counter) for c in n["kids"]]]
+            [[k, enc_value(v, ev)] for k, v in n["attrs"]], bool(n["cbe"]), bool(n["hidden"]),
+            list(n["pw"] or []), [enc_node(c, counter, ev) for c in n["kids"]]]
 
 
-def strings_of(n, acc):
+def strings_of(n, acc, ev="utf-8"):
     if n["k"] == "s":
         acc.add(n["text"])
         return
     for _, v in n["attrs"]:
-        t = value_text(v)
+        t = value_text(v, ev)
         if t is not None:
             acc.add(t)
     for c in n["kids"]:
-        strings_of(c, acc)
+        strings_of(c, acc, ev)
 
 
 def fns_of(spec):
@@ -288,9 +317,9 @@ def fns_of(spec):
     return fs
 
 
-def enc_env(spec, sub):
+def enc_env(spec, sub, ev="utf-8"):
     strs = set()
-    strings_of(sub, strs)
+    strings_of(sub, strs, ev)
     strs = sorted(strs)
     return [[enc_fn(f), [[s, L.plain_fn(f)(s)] for s in strs]] for f in fns_of(spec)]
 
@@ -326,8 +355,9 @@ def enc_case(case):
                 [] if parent is None else [parent]]
     lvl, incl = case_shape(case)
     soup_xml = bool(case.get("soup")) and case["soup"]["xml"] and not case["path"]
-    return [15002, enc_env(case["fmt"], sub), [[] if k is None else [k] for k in chain], top, enc_spec(case["fmt"]),
-            [] if lvl is None else [lvl], incl, soup_xml, enc_node(sub, [0])]
+    ev = case_ev(case)
+    return [15002, enc_env(case["fmt"], sub, ev), [[] if k is None else [k] for k in chain], top, enc_spec(case["fmt"]),
+            [] if lvl is None else [lvl], incl, soup_xml, enc_node(sub, [0], ev)]
 
 
 def dec_result(m):
@@ -344,7 +374,10 @@ KEYS = ["id", "class", "href", "a", "aa", "a-b", "B", "Z", "data-x", "xml:lang",
 VALUES = [["none"], ["str", ""], ["str", "v"], ["str", 'say "hi"'], ["str", "it's"], ["str", "\"both' "],
           ["str", "a&b<c>"], ["str", "é ≧̸"], ["str", "tea & AT&T &amp; &nosuch;"], ["list", ["y", "x", "y"]],
           ["list", []], ["tuple", ["u", "t"]], ["int", 5], ["float", 1.5], ["bool", True], ["str", " "], ["obj", "o&<b>"],
-          ["str", "javascript:a&b<c"], ["str", "script"], ["str", "style&"], ["str", "&"], ["str", "<"]]
+          ["str", "javascript:a&b<c"], ["str", "script"], ["str", "style&"], ["str", "&"], ["str", "<"],
+          # what a parsed <meta charset=...> / <meta http-equiv=Content-Type content=...> carries
+          ["charset", "ISO-8859-1"], ["charset", "a&b"], ["content", "text/html; charset=koi8-r"],
+          ["content", "a&b <c>; charset=x; q='1'"], ["content", "no declaration here é"]]
 TEXTS = ["text", " padded \n", "", "   ", "a<b&c>d", "é ≧̸ ≧", "&amp; &lt;", " x ", "]]>", "x\ny", "tea", "\t",
          "e a\"'", "AT&T &nosuch; &#233;", "<⃒ ="]
 PW_CHOICES = [None, [], ["pre", "textarea"], ["pre", "textarea"], ["p"], ["Pre", "code"]]
@@ -366,7 +399,13 @@ MARKUPS = [
     "<a href=\"http://example.com/?foo=val1&bar=val2\">A link</a>",
     "<root><item k=\"v\" a=\"\">x &amp; y</item><?pi data?><![CDATA[raw <&>]]><empty/></root>",
     "<p z=\"1\" m=\"2\" a=\"3\">&ldquo;Dammit!&rdquo; he said.</p>",
+] + [
+    "<html><head><meta charset=\"ISO-8859-1\"/><meta content=\"text/html; charset=ISO-8859-1\" http-equiv=\"Content-Type\"/>"
+    "<title>t &amp; é</title></head><body><p title=\"t&amp;é\">x</p></body></html>",
+    "<meta content=\"a&amp;b <c>; charset=koi8-r; é\" http-equiv=\"Content-Type\"/><meta charset=\"a&amp;b\">"
+    "<a title=\"a&amp;b <c>\"></a>",
 ]
+META_MARKUPS = MARKUPS[-2:]
 
 
 def gen_attrs(rng):
@@ -463,7 +502,7 @@ def expected_for(case):
         return {"out": out, "exc": None, "calls": calls}
     lvl, incl = case_shape(case)
     soup_xml = bool(case.get("soup")) and case["soup"]["xml"] and not case["path"]
-    out, calls = ref_render(sub, o, lvl, incl, soup_xml)
+    out, calls = ref_render(sub, dict(o, ev=case_ev(case)), lvl, incl, soup_xml)
     return {"out": out, "exc": None, "calls": calls}
 
 
@@ -776,6 +815,35 @@ def case_grid(ctx):
     return cases
 
 
+def meta_grid(ctx):
+    """Parsed documents whose <meta> tags declare an encoding (the stored attribute values are the charset placeholder
+    classes) x every kind of formatter x with / without / other output encoding. The value written is the formatter's
+    attribute-value function applied to the declaration for the eventual encoding — whatever class the stored value has."""
+    specs = [{"way": "name", "name": n} for n in ("html", "minimal", "html5", None)]
+    specs += [{"way": "function", "f": f} for f in (["custom", 0], ["custom", 1], ["custom", 5], ["lib", "html"])]
+    specs += [{"way": "object", "cls": c, "kw": ({} if f == "omit" else {"entity_substitution": f})}
+              for c in ("Formatter", "HTMLFormatter", "XMLFormatter") for f in (["custom", 1], ["lib", "xml"], "omit")]
+    entries = [("decode", {}), ("decode", {"eventual": None}), ("decode", {"eventual": "iso-8859-1"}), ("encode", {}),
+               ("encode", {"encoding": "utf-16"}), ("prettify", {}), ("decode_contents", {"eventual": "windows-1252"}),
+               ("encode_contents", {})]
+    cases = []
+    for mk in META_MARKUPS:
+        for xml in (False, True):
+            for path in ([], [0]):
+                for spec in specs:
+                    for entry, extra in entries:
+                        if xml and not path and extra:
+                            continue          # BeautifulSoup.decode's XML declaration is outside this model
+                        c = {"soup": {"markup": mk, "xml": xml}, "path": path, "fmt": spec, "entry": entry, "level": None}
+                        c.update(extra)
+                        cases.append(c)
+    ctx.count("meta_charset_grid", len(cases))
+    impl = check_render(ctx, cases, "meta-charset")
+    k = next(i for i, c in enumerate(cases) if c["fmt"].get("f") == ["custom", 1] and c["entry"] == "encode" and c["path"] == [0])
+    ctx.sample({"case": {k2: v for k2, v in cases[k].items() if k2 != "tree"}, "impl": impl[k]["out"]})
+    return cases
+
+
 def documented_examples(ctx, only=None):
     """the examples of doc/index.rst, with their printed results"""
     from bs4 import BeautifulSoup
@@ -870,6 +938,12 @@ def random_cases(ctx, n):
             c["path"] = path
             c["entry"] = rng.choice(["decode", "decode", "prettify", "prettify", "decode_contents", "encode", "encode_contents"])
             c["level"] = rng.choice([None, None, 0, 1, 2, -1]) if c["entry"] != "prettify" else None
+            xml_root = bool(c.get("soup")) and c["soup"]["xml"] and not path     # the XML declaration names the encoding too
+            if not xml_root and rng.random() < 0.3:
+                if c["entry"] in ("decode", "decode_contents"):
+                    c["eventual"] = rng.choice([None, "iso-8859-1", "utf-8", "koi8-r"])
+                elif c["entry"] in ("encode", "encode_contents"):
+                    c["encoding"] = "utf-16"
         if not c.get("soup") and not c["path"] and rng.random() < 0.1:
             c["top_is_xml"] = True
         cases.append(c)
@@ -1046,6 +1120,7 @@ def run(ctx):
         probe = probe_grid(ctx)
         scope_nodes = small_scope(ctx)
         case_cases = case_grid(ctx)
+        meta_cases = meta_grid(ctx)
         attribute_orders(ctx)
         strs = alternation(ctx)
         rnd = random_cases(ctx, 40000 if ctx.thorough else 3000)
@@ -1069,7 +1144,7 @@ def run(ctx):
                          "output depends on attribute insertion order", r2["out"], r["out"], tag="insertion-order")
         ctx.count("insertion_order_twins", twins)
         n = 4000 if ctx.thorough else 300
-        sample = corpus + ctx.rng.sample(probe, min(len(probe), n)) + rnd[:n] + tw_cases[:n // 3] + case_cases[::7]
+        sample = corpus + ctx.rng.sample(probe, min(len(probe), n)) + rnd[:n] + tw_cases[:n // 3] + case_cases[::7] + meta_cases[::11]
         subprocess_seeds(ctx, sample, strs[:4000] if ctx.thorough else strs[:1500])
         if ctx.tier == "thorough" and not ctx.search_mode:
             run_coqchk(ctx)
